@@ -132,4 +132,41 @@ let check (case : Sexp.t) : unit =
            | _ -> result id "VIOL" "path_to_node" "error result for an existing node"; false) paths in
        if ok1 && ok2 && ok3 && ok4 then result id "OK" "regions" ""
      | _ -> result id "ERR" "abs" "arena is not a tree")
+  (* second case kind: the caller rewrites predicates (AffTree::update_node) between two next() calls of one traversal.
+     The dumped tree is the one BEFORE the run; (U i AFF) = update_node(i, AFF) issued right after the Next that reported
+     the decision i.  Deciding: the stream equals pgen_run_upd (coq/Pwl/PolyGenUpd.v: the existing coded machine
+     pgen_next / pgen_skip on the arena as it is at each call; C09_generator_reads_current_parent) *)
+  | List [Atom "case"; Atom id; Atom "regions_upd"; st; List (Atom "script" :: sc); List (Atom "stream" :: items)] ->
+    let t = itree_of st in
+    let root = (match t.root with Some r -> r | None -> 0) in
+    let arena = arena_of t in
+    let script = List.map (function
+        | Atom "N" -> UNext
+        | Atom "S" -> USkip
+        | List [Atom "U"; i; a] -> UUpdate (nat_of_int (int_of i), aff_of a)
+        | _ -> raise (Parse_error "upd script")) sc in
+    let show_sc = String.concat "" (List.map (function UNext -> "N" | USkip -> "S" | UUpdate (i, _) -> Printf.sprintf "U%d" (int_of_nat i)) script) in
+    let nupd = List.length (List.filter (function UUpdate _ -> true | _ -> false) script) in
+    bump "upd_cases"; bump_by "updates" nupd;
+    let impl = List.map iout_of items in
+    let model = pgen_run_upd arena (pgen_new (nat_of_int root)) script in
+    (* how often the rewriting matters: the stream differs from the one of the same commands on the unchanged tree *)
+    let static = pgen_run arena (pgen_new (nat_of_int root))
+        (List.filter_map (function UNext -> Some Next | USkip -> Some Skip | UUpdate _ -> None) script) in
+    let effective = (List.length static <> List.length model) ||
+                    List.exists2 (fun x y -> match x, y with
+                        | OItem i1, OItem i2 -> not (rows_eq i1.o_rows i2.o_rows)
+                        | _ -> false) static model in
+    if effective then (bump "upd_effective"; bump "nontrivial");
+    (match impl with
+     | [IPanic] ->
+       if List.mem OPanic model then result id "OK" "regions_upd" ""
+       else result id "VIOL" "stream-upd" (Printf.sprintf "generator panicked under script %s; the model stream has %d items" show_sc (List.length model))
+     | _ ->
+       (match first_diff 0 impl model with
+        | None -> bump "upd_agree"; result id "OK" "regions_upd" ""
+        | Some (k, a, b) ->
+          result id "VIOL" "stream-upd"
+            (Printf.sprintf "reported half-spaces are not those of the parent's predicate at the time of the report: script %s position %d: implementation %s, model %s"
+               show_sc k a b)))
   | _ -> result "?" "ERR" "parse" "unrecognised case"
